@@ -37,7 +37,11 @@ structure Inv (st : TH) : Prop where
   iter : (st.lpc = .iter ∨ st.lpc = .notify) → st.strs ++ st.remaining = view st
   loadedIff : st.loaded = true ↔ (st.lpc = .notifyFinal ∨ st.lpc = .finished)
   full : st.loaded = true → st.strs = view st
-  cons : (st.cpc = .waiting ∨ st.cpc = .reading) → st.out = (view st).take st.yielded
+  cons : (st.cpc = .waiting ∨ st.cpc = .reading ∨ st.cpc = .yielding) →
+    st.out = (view st).take st.yielded
+  ybatch : st.cpc = .yielding → st.out ++ st.batch = (view st).take (st.yielded + st.batch.length)
+  ydone : st.cpc = .yielding → st.sawDone = true → st.out ++ st.batch = view st ∧ st.loaded = true
+  ywake : st.cpc = .yielding → st.sawDone = false → st.ev = false → st.lpc ≠ .finished
   idle : st.cpc = .idle → st.lpc = .notStarted
   done : st.cpc = .done → st.loaded = true
   running : (st.lpc = .started ∨ st.lpc = .called ∨ st.lpc = .iter ∨ st.lpc = .notify) →
@@ -70,6 +74,10 @@ theorem inv_lreset (st : TH) (h : Inv st) : Inv (step st .lreset) := by
     have h3 := h.idle
     have h4 := h.done
     have h5 := h.wake
+    have h10 := h.started
+    have h11 := h.ybatch
+    have h12 := h.ydone
+    have h13 := h.ywake
     constructor <;> simp_all [view]
   · exact h
 
@@ -88,6 +96,9 @@ theorem inv_lsnap (st : TH) (h : Inv st) : Inv (step st .lsnap) := by
     have h8 := h.iter
     have h9 := h.full
     have h10 := h.started
+    have h11 := h.ybatch
+    have h12 := h.ydone
+    have h13 := h.ywake
     constructor <;> simp_all [view]
   · exact h
 
@@ -106,6 +117,9 @@ theorem inv_lnotify (st : TH) (h : Inv st) : Inv (step st .lnotify) := by
     have h8 := h.iter
     have h9 := h.full
     have h10 := h.started
+    have h11 := h.ybatch
+    have h12 := h.ydone
+    have h13 := h.ywake
     constructor <;> simp_all [view]
   · exact h
 
@@ -124,6 +138,9 @@ theorem inv_ldone (st : TH) (h : Inv st) : Inv (step st .ldone) := by
     have h8 := h.iter
     have h9 := h.full
     have h10 := h.started
+    have h11 := h.ybatch
+    have h12 := h.ydone
+    have h13 := h.ywake
     constructor <;> simp_all [view]
   · exact h
 
@@ -142,6 +159,9 @@ theorem inv_lfinal (st : TH) (h : Inv st) : Inv (step st .lfinal) := by
     have h8 := h.iter
     have h9 := h.full
     have h10 := h.started
+    have h11 := h.ybatch
+    have h12 := h.ydone
+    have h13 := h.ywake
     constructor <;> simp_all [view]
   · exact h
 
@@ -160,6 +180,9 @@ theorem inv_cwait (st : TH) (h : Inv st) : Inv (step st .cwait) := by
     have h8 := h.iter
     have h9 := h.full
     have h10 := h.started
+    have h11 := h.ybatch
+    have h12 := h.ydone
+    have h13 := h.ywake
     constructor <;> simp_all [view]
   · exact h
 
@@ -180,6 +203,9 @@ theorem inv_lappend (st : TH) (h : Inv st) : Inv (step st .lappend) := by
       have h8 := h.iter
       have h9 := h.full
       have h10 := h.started
+      have h11 := h.ybatch
+      have h12 := h.ydone
+      have h13 := h.ywake
       have hp : st.strs ++ [x] <+: view st := by
         rw [← h8 (Or.inl hl), hr]
         exact ⟨r, by simp⟩
@@ -203,6 +229,9 @@ theorem inv_cstart (st : TH) (h : Inv st) (ha : allowed st .cstart) : Inv (step 
     have h8 := h.iter
     have h9 := h.full
     have h10 := h.started
+    have h11 := h.ybatch
+    have h12 := h.ydone
+    have h13 := h.ywake
     cases hlpc : st.lpc <;> cases hcpc : st.cpc <;> (constructor <;> simp_all [view])
   · exact h
 
@@ -223,6 +252,9 @@ theorem inv_ains (st : TH) (h : Inv st) (s : Text) (ha : allowed st (.ains s)) :
     have h8 := h.iter
     have h9 := h.full
     have h10 := h.started
+    have h11 := h.ybatch
+    have h12 := h.ydone
+    have h13 := h.ywake
     cases hlpc : st.lpc <;> cases hcpc : st.cpc <;> (constructor <;> simp_all [view])
   · exact h
 
@@ -241,6 +273,9 @@ theorem inv_astore (st : TH) (h : Inv st) : Inv (step st .astore) := by
     have h8 := h.iter
     have h9 := h.full
     have h10 := h.started
+    have h11 := h.ybatch
+    have h12 := h.ydone
+    have h13 := h.ywake
     constructor <;> simp_all [view]
   · exact h
 
@@ -251,38 +286,70 @@ theorem inv_cread (st : TH) (h : Inv st) : Inv (step st .cread) := by
     have h0 := h.pre
     have h1 := h.loadedIff
     have h2 := h.cons
-    have h3 := h.idle
-    have h4 := h.done
-    have h5 := h.wake
-    have h6 := h.running
-    have h7 := h.called
-    have h8 := h.iter
     have h9 := h.full
-    have h10 := h.started
     have key := take_append_drop_prefix st.strs (view st) h0 st.yielded
     constructor
     · exact h0
-    · exact h8
+    · exact h.iter
     · exact h1
     · exact h9
+    · intro _; exact h2 (Or.inr (Or.inl hl))
     · intro _
       show st.out ++ st.strs.drop st.yielded = (view st).take (st.yielded + (st.strs.drop st.yielded).length)
-      rw [h2 (Or.inr hl), key]
-    · show (if st.loaded = true then CPc.done else CPc.waiting) = CPc.idle → st.lpc = .notStarted
-      split <;> simp
-    · show (if st.loaded = true then CPc.done else CPc.waiting) = CPc.done → st.loaded = true
-      split <;> simp_all
-    · exact h6
-    · exact h7
-    · show (if st.loaded = true then CPc.done else CPc.waiting) = CPc.waiting → false = false → st.lpc ≠ .finished
-      split
-      · simp
-      · rename_i hld
-        intro _ _ hf
-        exact hld (h1.mpr (Or.inr hf))
+      rw [h2 (Or.inr (Or.inl hl)), key]
+    · intro _ hd
+      have hd' : st.loaded = true := hd
+      refine ⟨?_, hd'⟩
+      show st.out ++ st.strs.drop st.yielded = view st
+      rw [h2 (Or.inr (Or.inl hl)), ← h9 hd', List.take_append_drop]
+    · intro _ hd _ hf
+      have hd' : st.loaded = false := hd
+      have := h1.mpr (Or.inr hf)
+      simp [hd'] at this
+    · intro hc; simp at hc
+    · intro hc; simp at hc
+    · exact h.running
+    · exact h.called
+    · intro hc; simp at hc
     · intro hn
-      have := h10 hn
-      simp_all
+      have := h.started hn
+      simp [hl] at this
+  · exact h
+
+theorem inv_cyield (st : TH) (h : Inv st) : Inv (step st .cyield) := by
+  simp only [step]
+  split
+  · rename_i hl
+    have hb := h.ybatch hl
+    have hd := h.ydone hl
+    have hw := h.ywake hl
+    constructor
+    · exact h.pre
+    · exact h.iter
+    · exact h.loadedIff
+    · exact h.full
+    · intro _; exact hb
+    · intro hc
+      cases hs : st.sawDone <;> simp [hs] at hc
+    · intro hc
+      cases hs : st.sawDone <;> simp [hs] at hc
+    · intro hc
+      cases hs : st.sawDone <;> simp [hs] at hc
+    · intro hc
+      cases hs : st.sawDone <;> simp [hs] at hc
+    · intro hc
+      cases hs : st.sawDone with
+      | false => simp [hs] at hc
+      | true => exact (hd hs).2
+    · exact h.running
+    · exact h.called
+    · intro hc hev
+      cases hs : st.sawDone with
+      | false => exact hw hs hev
+      | true => simp [hs] at hc
+    · intro hn
+      have := h.started hn
+      simp [hl] at this
   · exact h
 
 theorem inv_step (st : TH) (h : Inv st) (a : Step) (ha : allowed st a) : Inv (step st a) := by
@@ -290,6 +357,7 @@ theorem inv_step (st : TH) (h : Inv st) (a : Step) (ha : allowed st a) : Inv (st
   | cstart => exact inv_cstart st h ha
   | cwait => exact inv_cwait st h
   | cread => exact inv_cread st h
+  | cyield => exact inv_cyield st h
   | lreset => exact inv_lreset st h
   | lsnap => exact inv_lsnap st h
   | lappend => exact inv_lappend st h
@@ -307,15 +375,16 @@ theorem inv_run (st : TH) (h : Inv st) (sched : List Step) (hs : okRun st sched)
     simp only [run, List.foldl_cons]
     exact ih (step st a) (inv_step st h a hs.1) hs.2
 
-/-- the read that sees `_loaded` completes the `load()` call with exactly the logical history -/
-theorem final_read (st : TH) (h : Inv st) (hc : st.cpc = .reading) (hl : st.loaded = true) :
-    (step st .cread).out = view st ∧ (step st .cread).cpc = .done := by
+/-- the read that sees `_loaded`, followed by the delivery of its items, completes the `load()`
+    call with exactly the logical history -/
+theorem final_read (st : TH) (h : Inv st) (hc : st.cpc = .yielding) (hl : st.sawDone = true) :
+    (step st .cyield).out = view st ∧ (step st .cyield).cpc = .done := by
   simp only [step, hc, hl, if_true]
-  refine ⟨?_, trivial⟩
-  rw [h.cons (Or.inr hc), ← h.full hl, List.take_append_drop]
+  exact ⟨(h.ydone hc hl).1, trivial⟩
 
 /-- while a `load()` call is in progress it has yielded a prefix of the logical history -/
-theorem out_prefix (st : TH) (h : Inv st) (hc : st.cpc = .waiting ∨ st.cpc = .reading) :
+theorem out_prefix (st : TH) (h : Inv st)
+    (hc : st.cpc = .waiting ∨ st.cpc = .reading ∨ st.cpc = .yielding) :
     st.out <+: view st := by
   rw [h.cons hc]; exact List.take_prefix _ _
 
@@ -344,8 +413,16 @@ theorem inv2_step (st : TH) (h : Inv2 st) (a : Step) (ha : noAppend [a]) :
   | cread =>
     refine ⟨⟨hi, ?_, ?_⟩, ?_⟩
     · simp only [step]; split <;> simp [h.nopend]
-    · by_cases hc : st.cpc = .reading
-      · by_cases hl : st.loaded = true
+    · simp only [step]
+      split
+      · simp
+      · exact h.doneOut
+    · simp only [step]; split <;> rfl
+  | cyield =>
+    refine ⟨⟨hi, ?_, ?_⟩, ?_⟩
+    · simp only [step]; split <;> simp [h.nopend]
+    · by_cases hc : st.cpc = .yielding
+      · by_cases hl : st.sawDone = true
         · intro _
           rw [(final_read st h.inv hc hl).1, hv]
           simp only [step, hc, if_true]
@@ -433,12 +510,13 @@ def lrank (st : TH) : Nat :=
 
 def crank (st : TH) : Nat :=
   match st.cpc with
-  | .waiting => if st.ev then 2 else 0
-  | .reading => 1
+  | .waiting => if st.ev then 3 else 0
+  | .reading => 2
+  | .yielding => if st.ev then 4 else 1
   | _ => 0
 
 /-- number of effective loader / consumer steps that can still happen -/
-def budget (st : TH) : Nat := 3 * lrank st + crank st
+def budget (st : TH) : Nat := 4 * lrank st + crank st
 
 /-- every loader / consumer step that changes the state uses up budget -/
 theorem budget_decreases (st : TH) (a : Step) (ha : isLoadStep a) (hne : step st a ≠ st) :
@@ -459,7 +537,14 @@ theorem budget_decreases (st : TH) (a : Step) (ha : isLoadStep a) (hne : step st
     split at hne
     · rename_i h
       simp only [h, if_true]
-      cases hld : st.loaded <;> simp [budget, lrank, crank, h]
+      simp [budget, lrank, crank, h]
+    · exact absurd rfl hne
+  | cyield =>
+    simp only [step] at hne ⊢
+    split at hne
+    · rename_i h
+      simp only [h, if_true]
+      cases hld : st.sawDone <;> cases hev : st.ev <;> simp [budget, lrank, crank, h, hev]
     · exact absurd rfl hne
   | lreset =>
     simp only [step] at hne ⊢
@@ -515,7 +600,8 @@ theorem budget_decreases (st : TH) (a : Step) (ha : isLoadStep a) (hne : step st
 
 /-- no lost wake-up: while a `load()` call is in progress some loader / consumer step can
     change the state -/
-theorem no_deadlock (st : TH) (h : Inv st) (hc : st.cpc = .waiting ∨ st.cpc = .reading) :
+theorem no_deadlock (st : TH) (h : Inv st)
+    (hc : st.cpc = .waiting ∨ st.cpc = .reading ∨ st.cpc = .yielding) :
     ∃ a, isLoadStep a ∧ step st a ≠ st := by
   have lpc_ne : ∀ a, (step st a).lpc ≠ st.lpc → step st a ≠ st := fun a hn he => hn (by rw [he])
   have cpc_ne : ∀ a, (step st a).cpc ≠ st.cpc → step st a ≠ st := fun a hn he => hn (by rw [he])
@@ -538,9 +624,12 @@ theorem no_deadlock (st : TH) (h : Inv st) (hc : st.cpc = .waiting ∨ st.cpc = 
         cases hr : st.remaining with
         | nil => exact ⟨.ldone, trivial, lpc_ne _ (by simp [step, hl, hr])⟩
         | cons x r => exact ⟨.lappend, trivial, lpc_ne _ (by simp [step, hl, hr])⟩
-  · refine ⟨.cread, trivial, cpc_ne _ ?_⟩
-    simp only [step, hc, if_true]
-    split <;> simp
+  · rcases hc with hc | hc
+    · refine ⟨.cread, trivial, cpc_ne _ ?_⟩
+      simp [step, hc]
+    · refine ⟨.cyield, trivial, cpc_ne _ ?_⟩
+      simp only [step, hc, if_true]
+      split <;> simp
 
 /-- a schedule in which every step changes the state -/
 def effective : TH → List Step → Prop
